@@ -1,3 +1,4 @@
+pub mod alloc;
 pub mod guard;
 pub mod io;
 pub mod report;
